@@ -2,7 +2,6 @@ package decoder
 
 import (
 	"encoding/json"
-	"strconv"
 	"unsafe"
 
 	"github.com/goccy/go-json/internal/errors"
@@ -29,8 +28,13 @@ func (d *numberDecoder) DecodeStream(s *Stream, depth int64, p unsafe.Pointer) e
 	if err != nil {
 		return err
 	}
-	if _, err := strconv.ParseFloat(*(*string)(unsafe.Pointer(&bytes)), 64); err != nil {
-		return errors.ErrSyntax(err.Error(), s.totalOffset())
+	if bytes == nil {
+		// null: the destination keeps its value
+		return nil
+	}
+	// a json.Number keeps the text of the literal, whatever its magnitude
+	if !validNumberLiteral(*(*string)(unsafe.Pointer(&bytes))) {
+		return errInvalidNumberLiteral(string(bytes), s.totalOffset())
 	}
 	d.op(p, json.Number(string(bytes)))
 	s.reset()
@@ -42,8 +46,12 @@ func (d *numberDecoder) Decode(ctx *RuntimeContext, cursor, depth int64, p unsaf
 	if err != nil {
 		return 0, err
 	}
-	if _, err := strconv.ParseFloat(*(*string)(unsafe.Pointer(&bytes)), 64); err != nil {
-		return 0, errors.ErrSyntax(err.Error(), c)
+	if bytes == nil {
+		// null: the destination keeps its value
+		return c, nil
+	}
+	if !validNumberLiteral(*(*string)(unsafe.Pointer(&bytes))) {
+		return 0, errInvalidNumberLiteral(string(bytes), c)
 	}
 	cursor = c
 	s := *(*string)(unsafe.Pointer(&bytes))
